@@ -233,6 +233,13 @@ def _call(t, val):
             if recv[0] in ("stripped", "empty") and not args:
                 return recv
             raise Unknown(f"{m} on {recv}")
+        if recv[0] == "empty" and all(x[0] == "c" for x in args) and not kws and m not in ("strip", "lstrip", "rstrip"):
+            try:
+                return ("c", getattr("", m)(*[x[1] for x in args]))
+            except Exception as e:
+                return ("raise", ("exc", type(e).__name__))
+        if recv[0] == "blank" and not args and m in ("isdigit", "isalpha", "isalnum", "isnumeric", "isdecimal", "isspace", "isupper", "islower"):
+            return ("c", getattr("   ", m)())
         if recv[0] == "c" and isinstance(recv[1], (str, bytes)) and all(x[0] == "c" for x in args) and not kws:
             try:
                 return ("c", getattr(recv[1], m)(*[x[1] for x in args]))
